@@ -248,10 +248,15 @@ func TestVerifC14Race(t *testing.T) {
 			if !r.Mine(i) || r.Expired() {
 				continue
 			}
+			if vsched.FreePass(r.Add, func() vsched.Scenario { return c14bBuild(t, r, c14bScenario{A: a, B: b}) }) {
+				continue // race-detector pass: the same thread bodies, free-running, in a binary built with -race
+			}
 			vsched.Explore(r, mk(c14bScenario{A: a, B: b}, bound))
 			r.Add("scenarios", 1)
 		}
 	}
-	r.Add("distinct_nontrivial", r.Get("schedules"))
+	if vsched.FreeRuns() == 0 {
+		r.Add("distinct_nontrivial", r.Get("schedules"))
+	}
 	_ = strings.Join
 }
